@@ -84,6 +84,11 @@ def analyse(path, rel):
     alias = {}
     for m in re.finditer(r"\bParticle\s*\*\s*(\w+)\s*=\s*(?:\(\s*\*?\s*)?\w+\s*\)?\s*->\s*(first|second)Part\(\)", src):
         alias.setdefault(m.group(1), set()).add(m.group(2))
+    # declared first (`Particle* first;`) and assigned later (`first = pD->firstPart();`)
+    declared = set(re.findall(r"\bParticle\s*\*\s*(\w+)\s*;", src))
+    for m in re.finditer(r"(?<=[;{}])\s*(\w+)\s*=\s*(?:\(\s*\*?\s*)?\w+\s*\)?\s*->\s*(first|second)Part\(\)\s*(?=;)", src):
+        if m.group(1) in declared:
+            alias.setdefault(m.group(1), set()).add(m.group(2))
     desig = [(r"\w+\s*\)?\s*->\s*firstPart\(\)", "first"), (r"\w+\s*\)?\s*->\s*secondPart\(\)", "second")]
     for a, ws in alias.items():
         if len(ws) == 1:
@@ -112,7 +117,8 @@ def analyse(path, rel):
             other = "actsOnSecond()" if who == "first" else "actsOnFirst()"
             line = src.count("\n", 0, m.start()) + 1
             rows.append(dict(file=rel, line=line, who=who, own=any(own in g.replace(" ", "") for g in gs), other=any(other in g.replace(" ", "") for g in gs),
-                             stmt=" ".join(stmt.split())[:100]))
+                             stmt=" ".join(stmt.split())[:100],
+                             listcut=any(re.search(r"cp\(\)\s*->\s*cutoff\(\)|\bcp\s*->\s*cutoff\(\)|maxCutoff|listCutoff", g) and re.search(r"abs\w*\(\)", g) for g in gs)))
     # de-duplicate (alias and direct patterns may hit the same statement)
     seen, out = set(), []
     for r in rows:
@@ -141,6 +147,7 @@ def generate(repo):
     if not rows:
         raise TranslateError("no write to a pair partner found anywhere")
     body = ",\n  ".join('("%s", %d, %s, %s, %s)' % (r["file"], r["line"], "true" if r["who"] == "first" else "false", "true" if r["own"] else "false", "true" if r["other"] else "false") for r in rows)
+    lc = ", ".join('("%s", %d)' % (r["file"], r["line"]) for r in rows if r.get("listcut"))
     return """/- GENERATED by /verif/translate/t_pairguards.py from every file under source/{include,src}/{force,callable,symbol,integrator,basic,meter,reflector}.
    Do not edit: rewritten on every check run. -/
 namespace Sympler.Gen.PairGuards
@@ -150,8 +157,12 @@ namespace Sympler.Gen.PairGuards
 def partnerWrites : List (String × Nat × Bool × Bool × Bool) := [
   %s]
 
+/-- those of them that sit under an `if` comparing the pair distance with the cutoff of the SHARED neighbour list (`cp()->cutoff()`)
+instead of the module's own cutoff: `(file, line)` -/
+def listCutoffGuarded : List (String × Nat) := [%s]
+
 end Sympler.Gen.PairGuards
-""" % body
+""" % (body, lc)
 
 
 if __name__ == "__main__":
